@@ -10,25 +10,35 @@ META = {
     "technique": "TLA+ reference (lexical resolution Rooted, io/fs.ValidPath, reachability/cycle/escape facts of a "
                  "file graph, clauses over the log of Open calls) + implementation-shaped model of "
                  "parser_template.go/path.go (one TLC action per branch) model-checked against it over every graph "
-                 "of a bounded space; every graph is replayed into scriggo.BuildTemplate through a recording fs.FS "
+                 "of a bounded space - sequences of <= max references, and a structured second space of fan-out graphs "
+                 "(an entry file with two references, in any absolute/relative/dot-dot form, to two files in the same or in "
+                 "different directories, each with a relative or dot-dot reference of its own); every graph is replayed into scriggo.BuildTemplate through a recording fs.FS "
                  "and through a FormatFS; the Open/Read log and outcome class are judged by a TLC Trace spec",
     "level": "model_checking",
     "level_text": "TLC checks, for every file graph of the space (quick: 3 layouts of 3 files at directory depths "
                   "0-2 with <=3 references over 3 kinds x 4 path forms, every single reference over 35 path forms (19 valid, 16 invalid) x "
-                  "4 kinds x 3 depths; thorough: 4 kinds x 5 path forms, 4-file layouts with <=4 references, "
-                  "<=5-reference render graphs, all pairs of valid path forms), that the transcribed expansion "
+                  "4 kinds x 3 depths, 4800 fan-out graphs of 5 files in 3 directories: 48 pairs of render references of the "
+                  "entry file x (5 relative/dot-dot forms x render/render-default)^2 references of the two children; thorough: "
+                  "4 kinds x 5 path forms, 4-file layouts with <=4 references, <=5-reference render graphs, all pairs of valid "
+                  "path forms, fan-out graphs from entry files at depth 0 and 1 with import/render/extends parents and "
+                  "import/render/render-default children over 6 forms), that the transcribed expansion "
                   "algorithm terminates (depth <= number of files, step bound, eventually an outcome), opens only "
                   "valid rooted names explained by a reference of an opened file, never reads a file twice, reports "
-                  "every reachable cycle and every reachable root-escaping reference as an error, and agrees with "
+                  "every reachable cycle and every reachable root-escaping reference as an error, succeeds only after "
+                  "opening the resolved target of every reference, fails only with a cause, and agrees with "
                   "the reference depth-first expansion (outcome class and exact sequence of opens). The same graphs "
-                  "plus seeded random graphs (<=5 files, <=8 references) are built by the real code under a "
+                  "plus seeded random graphs (<=5 files, <=8 references, every third one grown as a tree from the entry file) are built by the real code under a "
                   "recording file system, plain and as FormatFS; TLC evaluates the property clauses on each real log.",
     "level_note": "Trusted: TLC, the Json module, the Go driver (writes one template per file, records Open/Read, "
                   "5 s watchdog, cuts a build off after 64 Open calls; no oracle). Property-level clauses: build "
                   "returns; every Open argument satisfies fs.ValidPath and is the entry file or Rooted(dir(f), p) "
                   "for a reference p of an already opened f; no name is read through two handles; reachable cycle "
                   "=> error; reachable escaping reference => error, of the not-found class when nothing else is "
-                  "wrong with the graph. Agreement of all other outcome classes and of the exact open sequence with "
+                  "wrong with the graph; the resolution clause read per reference: a build that succeeds has opened "
+                  "Rooted(dir(f), p) for every reference p of every file f it loaded (and that file exists unless the "
+                  "reference is a render with default), and a build fails only if the graph has a cycle, an escaping or "
+                  "missing target, or one of the causes the property is silent about (invalid path, extends placement, one "
+                  "file in two roles, statement order). Agreement of all other outcome classes and of the exact open sequence with "
                   "the model is drift only. Not covered: file names that begin with '..' (e.g. '..a.html'), "
                   "non-ASCII names, file systems other than scriggo.Files, packages supplied for the import "
                   "fallback, concurrent builds.",
@@ -120,6 +130,17 @@ def selftest(allobs):
         h = json.loads(json.dumps(esc)); h["id"] = 990000007
         h["msg"] = rig.s2b("a.html:1:4: syntax error: something else")      # ... or reported as another class of error
         out.append((h, "escape-not-found-class"))
+    # a build of render references only (none of the causes of failure the property is silent about), all opens found
+    okr = next((o for o in allobs if o["cls"] == "nil" and len(o["opens"]) >= 3 and all(x["ok"] for x in o["opens"])
+                and all(r["k"] == "render" for r in o["refs"])), None)
+    if okr:
+        i = json.loads(json.dumps(okr)); i["id"] = 990000008
+        i["opens"].pop()                                                     # succeeded without opening a referenced file
+        out.append((i, "ref-target-loaded"))
+        j = json.loads(json.dumps(okr)); j["id"] = 990000009
+        j["cls"] = "builderror"                                              # every reference resolves to a file, yet "not found"
+        j["msg"] = rig.s2b('a.html:1:4: syntax error: render path "x.html" does not exist')
+        out.append((j, "fails-without-cause"))
     if cyc:
         d = json.loads(json.dumps(cyc)); d["id"] = 990000004
         d["cls"] = "nil"; d["msg"] = []                                      # a cycle built without error
@@ -197,7 +218,7 @@ def run(ctx, only_cases=None):
     # 5. sensitivity self-test (every run): one corrupted observation per clause must be rejected
     st = selftest(allobs)
     if only_cases is None:
-        if len(st) < 7:
+        if len(st) < 9:
             raise Infra("sensitivity self-test: no suitable observations to corrupt")
     if st:
         b3, _, _ = judge(ctx, "trace_selftest", [o for o, _ in st])
